@@ -618,6 +618,7 @@ func runC17(c *Ctx) {
 		c.Undecided("batch split sites", "-", fmt.Sprintf("%d found (expected 3)", nsplit))
 	}
 	runC17Metadata(c)
+	runC17Fits(c, funcs)
 }
 
 func entryInstrOf(b *ssa.BasicBlock) ssa.Instruction { return b.Instrs[0] }
